@@ -11,3 +11,8 @@ def implies(a, b):
 
 def iff(a, b):
     return bool(a) == bool(b)
+
+
+def the(x):
+    """payload of an Optional (concrete meaning: identity)"""
+    return x
